@@ -9,8 +9,9 @@
   both sides by argument — the generic side for every nbits, es — and the 127 × 127 magnitude products by kernel evaluation).
   NOT proved in Lean: the other 65 536-pair statements "fast posit<8,0|8,2> + − ÷ = generic" and × of <8,2> (≈3–5 min of
   kernel time per operator; no compiled evaluation is used) — they are established by the exhaustive transcripts of every
-  run; and the general statements for the 16/32-bit word algorithms, which are false in places (counterexamples below) and
-  otherwise only covered by the structured transcripts.
+  run; and the general statements for the 16/32-bit word algorithms (posit<16,2>/<32,2>::integer_assign, posit<32,2>::
+  operator*=), which after the repairs of the fast classes are stated as open `def … : Prop`, anchored by finite `_cfg_`
+  samples that sit on the repaired branches, and otherwise only covered by the structured transcripts.
 -/
 import UVerif.Model.Posit
 import UVerif.Model.PositConvFP
@@ -19,6 +20,7 @@ import UVerif.Model.PositC
 import UVerif.Driver.Fast
 import UVerifProofs.Lemmas.Fast
 import UVerifProofs.Lemmas.FastConv
+import UVerifProofs.Lemmas.FastRepair
 import UVerifProofs.Lemmas.FastMul8
 
 open UVerif UVerif.Posit UVerif.Fast UVerif.Generated UVerif.Driver
@@ -76,8 +78,10 @@ theorem C11_tables_3_1_counterexamples :
     tab posit_3_1_multiplication_lookup (tabIndex 3 1 3) ≠ Posit.mul 3 1 1 3 ∧
     tab posit_3_1_division_lookup (tabIndex 3 2 1) ≠ Posit.div 3 1 2 1 ∧
     tab posit_3_1_reciprocal_lookup 1 ≠ Posit.reciprocal 3 1 1 := by decide +kernel
-/-- `operator<` of posit<3,1> compares the encodings as unsigned bytes: 1 < −1 is reported as true -/
-theorem C11_lt_3_1_counterexample : tableLt 3 1 2 6 = true ∧ Posit.lt 3 2 6 = false := by decide +kernel
+/-- `operator<` of posit<3,1> (`int8_t(lhs._bits << 5) < int8_t(rhs._bits << 5)`) is the generic order on all 64 pairs
+    (the former witness 1 < −1 included) -/
+theorem C11_lt_3_1_agree : ∀ a < 8, ∀ b < 8, tableLt 3 1 a b = Posit.lt 3 a b := by decide +kernel
+example : tableLt 3 1 2 6 = false ∧ Posit.lt 3 2 6 = false := by decide +kernel
 
 /-! ### the six relational operators derived from `<` and `==` (all specialisations): sound for every width -/
 
@@ -107,55 +111,76 @@ example : fromInt 16 1 (2 ^ 40) = 0x7fff ∧ fromInt 16 1 (-(2 ^ 40)) = 0x8001 :
 
 /-- posit<2,0>::operator=(long long) = generic, all x -/
 theorem C11_assign_int_2_0_agree (x : Int) : assignInt_2_0 x = fromInt 2 0 x := assignInt_2_0_eq_generic x
-/-- posit<3,0>::operator=(int) = generic, all x (the `long long` overload first truncates to int: counterexample below) -/
+/-- posit<3,0>::operator=(long long) = generic, all x (`operator=(int)` widens its argument and calls it) -/
 theorem C11_assign_int_3_0_agree (x : Int) : assignInt_3_0 x = fromInt 3 0 x := assignInt_3_0_eq_generic x
 /-- posit<4,0>::operator=(long long) = generic, all x (3 is the tie between 2 and 4 and goes to the even encoding 2) -/
 theorem C11_assign_int_4_0_agree (x : Int) : assignInt_4_0 x = fromInt 4 0 x := assignInt_4_0_eq_generic x
-/-- posit<8,0>::integer_assign on the NEGATIVE half is the generic conversion (every negative long long except LLONG_MIN,
-    whose negation overflows); together with `C11_fast8_integer_assign_positive_is_maxpos` this pins the defect of the
-    posit<8,0> integer conversion to exactly the positive arguments. (For posit<8,2> the same text builds an es = 0 layout.) -/
-theorem C11_fast8_0_integer_assign_negative_agree (x : Int) (hneg : x < 0) (hlo : -(2:Int)^63 < x) :
-    integerAssign8 x = fromInt 8 0 x := integerAssign8_neg_eq_generic x hneg hlo
-example : integerAssign8 (-1000000) = fromInt 8 0 (-1000000) := C11_fast8_0_integer_assign_negative_agree _ (by decide) (by decide)
+/-- posit<8,0>::integer_assign IS the generic conversion for every long long except LLONG_MIN (whose negation overflows).
+    (Before the repair of the guard `v > 48 || v == rhs` this held on the negative half only.) -/
+theorem C11_fast8_0_integer_assign_agree (x : Int) (hlo : -(2:Int)^63 < x) (hhi : x < (2:Int)^63) :
+    integerAssign8 x = fromInt 8 0 x := integerAssign8_eq_generic x hlo hhi
+example : integerAssign8 (-1000000) = fromInt 8 0 (-1000000) := C11_fast8_0_integer_assign_agree _ (by decide) (by decide)
+example : integerAssign8 1 = 0x40 ∧ integerAssign8 3 = fromInt 8 0 3 ∧ integerAssign8 48 = 0x7E ∧ integerAssign8 49 = 0x7F := by decide +kernel
 
 /-- posit<3,1>::operator=(int) stores EVERY positive integer as encoding 1 (= 0.25); the generic conversion never yields 1
     for a positive integer (1 ↦ 2, ≥ 3 ↦ 3): the routine is wrong on the whole positive half-line -/
 theorem C11_assign_int_3_1_disagrees_on_every_positive (x : Int) (h : 1 ≤ x) : assignInt_3_1 x = 1 ∧ fromInt 3 1 x ≠ 1 :=
   assignInt_3_1_pos x h
-/-- posit<4,0>: EVERY `unsigned long long` ≥ 2^63 is mis-converted by the `(long long)` cast: generic gives maxpos (7), the
-    fast class an encoding of a negative value -/
-theorem C11_fast_4_0_unsigned_ge_2p63 (x : Nat) (h1 : 2 ^ 63 ≤ x) (h2 : x < 2 ^ 64) :
-    fromUInt 4 0 x = 7 ∧ assignInt_4_0 (toSigned 64 x) ≠ 7 := unsigned_4_0_ge_2p63 x h1 h2
+/-! ### unsigned long (long) sources: clamp to LLONG_MAX, then the signed routine — equal to the generic unsigned conversion
+    for EVERY natural number (posit<4,0>, <8,0>, <16,1>; the driver uses the same clamp for <8,2> and <16,2>) -/
+
+theorem C11_fast_4_0_unsigned_agree (x : Nat) : assignInt_4_0 (clampU x) = fromUInt 4 0 x :=
+  clamp_agree 4 0 assignInt_4_0 (by decide) (fun y _ _ => assignInt_4_0_eq_generic y) x
+theorem C11_fast_8_0_unsigned_agree (x : Nat) : integerAssign8 (clampU x) = fromUInt 8 0 x :=
+  clamp_agree 8 0 integerAssign8 (by decide) (fun y h0 h1 => integerAssign8_eq_generic y (by omega) h1) x
+theorem C11_fast_16_1_unsigned_agree (x : Nat) : fromInt 16 1 (clampU x) = fromUInt 16 1 x :=
+  clamp_agree 16 1 (fromInt 16 1) (by decide) (fun _ _ _ => rfl) x
+example : assignInt_4_0 (clampU 0x8000000000000000) = 7 ∧ integerAssign8 (clampU 0xffffffffffffffff) = 0x7F := by decide +kernel
 
 /-! ### integer conversions of the fast 8-bit classes (D14) -/
 
-/-- posit<8,0>::integer_assign / posit<8,2>::integer_assign: the guard `v > 48 || v == rhs` sends EVERY positive `long long`
+/-- posit<8,2>::integer_assign (still the unrepaired text): the guard `v > 48 || v == rhs` sends EVERY positive `long long`
     to maxpos (unbounded in the argument). -/
-theorem C11_fast8_integer_assign_positive_is_maxpos (x : Int) (h0 : 0 < x) (h1 : x < (2:Int)^63) : integerAssign8 x = 0x7F := by
-  unfold integerAssign8
-  have hne : x ≠ 0 := by omega
-  have hs : ¬ (x < 0) := by omega
-  simp only [hne, if_false, hs, decide_false, Bool.false_eq_true]
-  rw [toSigned_ofSigned_64 x (by omega) h1]
-  simp
-example : integerAssign8 1 = 0x7F ∧ fromInt 8 0 1 = 0x40 ∧ fromInt 8 2 1 = 0x40 := by decide +kernel
+theorem C11_fast8_2_integer_assign_positive_is_maxpos (x : Int) (h0 : 0 < x) (h1 : x < (2:Int)^63) : integerAssign8_2 x = 0x7F :=
+  integerAssign8_2_pos x h0 h1
+example : integerAssign8_2 1 = 0x7F ∧ fromInt 8 2 1 = 0x40 := by decide +kernel
 
-/-- the generic conversion of 1 is the encoding of 1.0 in both 8-bit configurations, so the fast classes disagree on 1 -/
-theorem C11_fast_convert_counterexample_8bit_int : integerAssign8 1 ≠ fromInt 8 0 1 ∧ integerAssign8 1 ≠ fromInt 8 2 1 := by decide +kernel
+/-- the generic conversion of 1 is the encoding of 1.0, so the fast posit<8,2> disagrees on 1 -/
+theorem C11_fast_convert_counterexample_8_2_int : integerAssign8_2 1 ≠ fromInt 8 2 1 := by decide +kernel
 /-- posit<8,2>: negative integers are encoded with the es = 0 layout: −2 ↦ 0xA0 (which is −16 in posit<8,2>), generic 0xB8 -/
-theorem C11_fast_convert_counterexample_8_2_negative : integerAssign8 (-2) = 0xA0 ∧ fromInt 8 2 (-2) = 0xB8 := by decide +kernel
+theorem C11_fast_convert_counterexample_8_2_negative : integerAssign8_2 (-2) = 0xA0 ∧ fromInt 8 2 (-2) = 0xB8 := by decide +kernel
 /-- posit<8,2>::float_assign truncates: 0.1f ↦ 0x24, generic (rounded) 0x25 -/
 theorem C11_fast_convert_counterexample_8_2_float : floatAssign_8_2 0x3dcccccd = 0x24 ∧ fromFloat 8 2 0x3dcccccd = 0x25 := by decide +kernel
-/-- posit<16,2>::integer_assign tests bit 12+k instead of bit 42+k: 0x31222 ↦ 0x7cc4, generic 0x7cc5 -/
-theorem C11_fast_convert_counterexample_16_2 : integerAssign_16_2 0x31222 = 0x7cc4 ∧ fromInt 16 2 0x31222 = 0x7cc5 := by decide +kernel
-/-- posit<32,2>::integer_assign(long) keeps the low 32 bits: 2^32 ↦ 0, generic 0x7fc00000 -/
-theorem C11_fast_convert_counterexample_32_2 : integerAssign_32_2 0x100000000 = 0 ∧ fromInt 32 2 0x100000000 = 0x7fc00000 := by decide +kernel
-/-- posit<3,0>::operator=(long long) casts to int: 2^32 ↦ 0, generic maxpos -/
-theorem C11_fast_convert_counterexample_3_0 : assignLongLong_3_0 0x100000000 = 0 ∧ fromInt 3 0 0x100000000 = 3 := by decide +kernel
-/-- posit<2,0>::float_assign rounds |x| < 1/4 to zero: 0.1f ↦ 0, generic minpos (= 1); a posit never rounds a non-zero real to 0 -/
-theorem C11_fast_convert_counterexample_2_0 : assignFP_2_0 8 23 0x3dcccccd = 0 ∧ fromFloat 2 0 0x3dcccccd = 1 := by decide +kernel
-/-- posit<2,0>::to_double reads NaR as −infinity -/
-theorem C11_fast_convert_counterexample_2_0_nar : toDouble_2_0 2 = 0xfff0000000000000 ∧ toDouble 2 0 2 = none := by decide +kernel
+/-- posit<16,2>::integer_assign (round bit 42+k, tie on the last encoding bit, four top encodings by threshold): the former
+    witness 0x31222 ↦ 0x7cc5 and a sample that sits on every branch of the routine — powers of two, ties with an even and an
+    odd last bit, the tie 1.5·2^47 whose last bit is an exponent bit, the four thresholds 2^48, 2^49, 2^51, 2^54 and their
+    neighbours, both signs (regression anchor, NOT the property) -/
+theorem C11_cfg_16_2_integer_assign_samples :
+    ∀ x ∈ ([0x31222, 1, 2, 3, 0x7fffffff, 0x1800, 0x1801, 0x2800, 0x27ff, 0xc00000000000, 0xbfffffffffff, 0xc00000000001,
+            0xffffffffffff, 0x1000000000000, 0x2000000000000, 0x2000000000001, 0x7ffffffffffff, 0x8000000000000,
+            0x40000000000000, 0x40000000000001, 0x7fffffffffffffff, -0x31222, -3, -0xc00000000000, -0x2000000000001,
+            -0x40000000000001] : List Int),
+      integerAssign_16_2 x = fromInt 16 2 x := by decide +kernel
+/-- the full statement (open: not proved; covered by the structured transcripts, 4.4·10^6 dense sources in the repair run) -/
+def C11_fast_16_2_integer_assign_full : Prop := ∀ x : Int, -(2:Int)^63 < x → x < (2:Int)^63 → integerAssign_16_2 x = fromInt 16 2 x
+/-- posit<32,2>::integer_assign(long) works on all 64 bits of its argument: the former witness 2^32 ↦ 0x7fc00000 and a sample
+    on the branches (regression anchor, NOT the property) -/
+theorem C11_cfg_32_2_integer_assign_samples :
+    ∀ x ∈ ([0x100000000, 1, 2, 3, 0x7fffffff, 0x80000000, 0xffffffff, 0x100000001, 0x1fffffffe, 0x180000001, 0xfffffffff,
+            0x20000000000001, 0x7fffffffffffffff, 0x4000000000000000, 0x6000000000000001, -0x100000000, -0x80000000,
+            -0x7fffffffffffffff, -0x123456789abcdef] : List Int),
+      integerAssign_32_2 x = fromInt 32 2 x := by decide +kernel
+def C11_fast_32_2_integer_assign_full : Prop := ∀ x : Int, -(2:Int)^63 < x → x < (2:Int)^63 → integerAssign_32_2 x = fromInt 32 2 x
+/-- posit<2,0>::float_assign = generic conversion for EVERY bit pattern of EVERY binary format (float, double, …): a non-zero
+    source is never rounded to 0 (the former witness 0.1f ↦ 1 included) -/
+theorem C11_assign_fp_2_0_agree (eb fb bits : Nat) : assignFP_2_0 eb fb bits = fromFP 2 0 eb fb bits := assignFP_2_0_eq_generic eb fb bits
+example : assignFP_2_0 8 23 0x3dcccccd = 1 ∧ fromFloat 2 0 0x3dcccccd = 1 := by decide +kernel
+/-- posit<2,0>::to_double = generic read-back on all four encodings (NaR reads as NaN) -/
+theorem C11_to_double_2_0_agree : ∀ a < 4, toDouble_2_0 a = toDouble 2 0 a := by decide +kernel
+/-- posit<3,0>: `posit_3_0_values_lookup` (regenerated from the header) holds the generic read-back of every encoding, NaN for NaR -/
+theorem C11_tables_values_3_0 :
+    ∀ a < 8, (match FP.decode 8 23 (toFloatBits_3_0 a) with | .nan => none | _ => some (toFloatBits_3_0 a)) = toFloat 3 0 a := by
+  decide +kernel
 
 /-! ### a word-level routine: posit8_mulp8 = generic multiplication (every pair of posit<8,0> encodings) -/
 
@@ -180,31 +205,36 @@ theorem C11_fast8_0_mul_eq_generic (a b : Nat) (ha : a < 256) (hb : b < 256) : P
   PositC.mulp8_eq_generic a b ha hb
 example : PositC.mulp8 0x5c 0xa3 = Posit.mul 8 0 0x5c 0xa3 := C11_fast8_0_mul_eq_generic _ _ (by decide) (by decide)
 
-/-! ### posit<32,2>::operator*= (new finding): `round_mul` forgets the low exponent bit when the regime fills the word -/
+/-! ### posit<32,2>::operator*=: `round_mul` uses the low exponent bit as sticky when the regime fills the word (repaired) -/
 
-/-- 0.5 · maxpos = 2^119 lies above the Standard midpoint 2^118 between 2^116 and maxpos = 2^120; generic rounds up to maxpos,
-    the fast `round_mul` takes bitNPlusOne = exp bit 1, ignores exp bit 0 as sticky, sees a "tie" and keeps the even 0x7ffffffe. -/
-theorem C11_fast_mul_32_2_counterexample :
-    mul_32_2 0x38000000 0x7fffffff = 0x7ffffffe ∧ Posit.mul 32 2 0x38000000 0x7fffffff = 0x7fffffff := by decide +kernel
-/-- sample of ordinary products on which the transcription and the generic model agree (regression anchor, NOT the property) -/
+/-- 0.5 · maxpos = 2^119 lies above the Standard midpoint 2^118 between 2^116 and maxpos = 2^120: generic rounds up to maxpos,
+    and so does the fast `round_mul` (bitNPlusOne = exp bit 1, moreBits = exp bit 0). The former counterexample, now positive. -/
+theorem C11_fast_mul_32_2_witness :
+    mul_32_2 0x38000000 0x7fffffff = 0x7fffffff ∧ Posit.mul 32 2 0x38000000 0x7fffffff = 0x7fffffff := by decide +kernel
+/-- sample of products on which the transcription and the generic model agree: ordinary ones and the ones whose exact value
+    sits at the ends of the regime range — 2^119 (three factorisations, both signs), the tie 2^118 (stays at 2^116), 2^117,
+    2^-117, 2^-118, 2^-119 (regression anchor, NOT the property) -/
 theorem C11_cfg_32_2_mul_samples :
     ∀ p ∈ [(0x40000000, 0x40000000), (0x48000000, 0x38000000), (0x7ffffffd, 0x00000003), (0x12345678, 0x6789abcd),
-           (0xc0000000, 0x40000001), (0x00000001, 0x00000001), (0x7fffffff, 0x7fffffff), (0x5a5a5a5a, 0xa5a5a5a5)],
+           (0xc0000000, 0x40000001), (0x00000001, 0x00000001), (0x7fffffff, 0x7fffffff), (0x5a5a5a5a, 0xa5a5a5a5),
+           (0x7ffffffe, 0x58000000), (0x58000000, 0x7ffffffe), (0x80000002, 0x58000000), (0x7fffffff, 0x38000000),
+           (0x7ffffffe, 0x50000000), (0x7ffffffe, 0x48000000), (0x7ffffffe, 0x58000001), (0x7ffffffd, 0x60000000),
+           (0x00000002, 0x38000000), (0x00000002, 0x30000000), (0x00000002, 0x28000000), (0x00000003, 0x28000000)],
       mul_32_2 p.1 p.2 = Posit.mul 32 2 p.1 p.2 := by decide +kernel
-/-- the full statement is false (counterexample above); kept visible -/
+/-- the full statement (open: not proved — it was false before the repair of `round_mul`; covered by the structured
+    transcripts, which include every factorisation of the ten extreme scales) -/
 def C11_fast_mul_32_2_full : Prop := ∀ a b, a < 2 ^ 32 → b < 2 ^ 32 → mul_32_2 a b = Posit.mul 32 2 a b
-theorem C11_fast_mul_32_2_full_is_false : ¬ C11_fast_mul_32_2_full := by
-  intro h
-  have := h 0x38000000 0x7fffffff (by decide) (by decide)
-  revert this
-  decide +kernel
 
 /-! ### pure C posit8 -/
 
-/-- posit8_cmpp8 returns `a.v - b.v` on unsigned bytes: minpos (0x01) vs −minpos (0xFF) gives −254 (says a < b) -/
-theorem C11_purec_cmpp8_counterexample : PositC.cmpp8 0x01 0xFF = -254 ∧ Posit.lt 8 0xFF 0x01 = true := by decide +kernel
-/-- posit8_lessThan compares unsigned bytes: minpos < −minpos is reported true (mask bit 4) -/
-theorem C11_purec_lessThan_counterexample : PositC.relMask8 0x01 0xFF = 0xe ∧ cmpMaskModel 8 0x01 0xFF = 0x32 := by decide +kernel
+/-- posit8_cmpp8 returns −1 / 0 / 1 according to the signed order of the encodings = the generic three-way comparison,
+    for every pair (the former witness minpos vs −minpos included) -/
+theorem C11_purec_cmpp8_agree (a b : Nat) :
+    PositC.cmpp8 a b = (if Posit.lt 8 b a then 1 else if Posit.lt 8 a b then -1 else 0) := cmpp8_eq_generic a b
+example : PositC.cmpp8 0x01 0xFF = 1 ∧ Posit.lt 8 0xFF 0x01 = true := by decide +kernel
+/-- posit8_equal … posit8_greaterOrEqual (signed compares) give the six generic answers for every pair -/
+theorem C11_purec_relational_agree (a b : Nat) : PositC.relMask8 a b = cmpMaskModel 8 a b := relMask8_eq_generic a b
+example : PositC.relMask8 0x01 0xFF = 0x32 ∧ cmpMaskModel 8 0x01 0xFF = 0x32 := by decide +kernel
 /-- posit8_fromsi (no `v == rhs` clause) IS the generic conversion, for every int except INT_MIN (whose negation overflows) -/
 theorem C11_purec_fromsi_agree (x : Int) (h1 : -(2:Int)^31 < x) (h2 : x < (2:Int)^31) : PositC.fromsi x = fromInt 8 0 x :=
   fromsi_eq_generic x h1 h2
